@@ -61,6 +61,43 @@ def at_return(sp, model, impl, sc):
     return problems
 
 
+def streaming_rerun_case(args):
+    """a workflow with a streamed edge: Run returns, leaves no FIFO or temp dir -- and does so again when the completed
+    workflow is run a second time (the producer runs again, its skipped consumer has to drain the pipe)"""
+    seed, i = args
+    rng = random.Random(seed * 7927 + i)
+    n = rng.randint(1, 2)
+    sp = t3.Spec(maxtasks=2 * n + rng.randint(0, 1), bufsize=rng.choice([1, 128]))
+    paths = ["f%d.dat" % j for j in range(n)]
+    for p in paths:
+        sp.files[p] = ("payload %s\n" % p) * rng.choice([1, 50, 5000])
+    s = sp.src("src", paths)
+    pr = sp.proc(t3.Proc("prod", kind="cat", ins=[("a", [(s, "out")])], outs=[("o", "{i:a}.stream")], stream_outs=["o"], sleep=rng.choice([None, "sleep 0.05"])))
+    sp.proc(t3.Proc("cons", kind="cat", ins=[("a", [(pr, "o")])], outs=[("o", "{i:a}.cons")]))
+    model = t3.run_model(sp.text())
+    sc = t3.Scratch()
+    try:
+        sc.plant(sp.files)
+        impl = t3.run_impl(sc, sp, timeout=60)
+        problems = t3.compare_success(sp, model, impl) + at_return(sp, model, impl, sc)
+        if not problems:
+            for k in range(2):
+                again = t3.run_impl(sc, sp, timeout=30, yield_seed=(rng.randint(1, 10**6), 300) if k else None)
+                if again["timed_out"] or "all goroutines are asleep" in again["stderr"]:
+                    problems.append(("deadlock-or-hang", "running the completed streaming workflow again never returns"))
+                    break
+                if again["rc"] != 0:
+                    problems.append(("unexpected-failure", "second run: exit %s %s" % (again["rc"], again["stderr"][-200:])))
+                    break
+                lo = t3.leftovers(again["fs"])
+                if lo:
+                    problems.append(("leftover-at-return", "temp dir or FIFO left by the second run: %s" % lo[:3]))
+        return {"spec": sp.text(with_files=False), "bufsize": sp.bufsize, "problems": problems, "ntasks": 2 * n, "nskip": 0, "rc": impl["rc"], "stderr": impl["stderr"][-300:],
+                "yield": None, "wall": impl["wall"]}
+    finally:
+        sc.close()
+
+
 def case(args):
     seed, i = args
     rng = random.Random(seed * 7919 + i)
@@ -80,10 +117,11 @@ def run(rep, tier, seed):
         raise RuntimeError("extraction/driver build failed: " + msg[-1500:])
     n = 96 if tier == "quick" else 1500
     results = t3.run_many(case, [(seed, i) for i in range(n)])
+    results += t3.run_many(streaming_rerun_case, [(seed, i) for i in range(n // 8)])
     t3.report_t3(rep, MODULE, proved, results, "T3 termination / at-return snapshot")
     rep.cov["evaluations"] = len(results)
     rep.cov["distinct_nontrivial"] = len({r["spec"] for r in results if r["ntasks"] >= 1})
-    rep.cov["rule"] = "workflow shapes (independent leaves with a slow one, a process without out-ports beside a slow leaf, a single port-less process, chains with more tasks than buffer slots, capacity-1 diamonds, out-port-less leaf plus parameter-only process) and random DAGs, SCIPIPE_BUFSIZE in {1,2,3}; a run must terminate (90 s bound), exit 0, and the snapshot the program takes right after Run returns must contain every predicted output and no temp dir / FIFO; every started command has ended; non-trivial = at least one task"
+    rep.cov["rule"] = "workflow shapes (independent leaves with a slow one, a process without out-ports beside a slow leaf, a single port-less process, chains with more tasks than buffer slots, capacity-1 diamonds, out-port-less leaf plus parameter-only process) and random DAGs, SCIPIPE_BUFSIZE in {1,2,3}; streamed producer/consumer pairs run once and then twice more in place; a run must terminate (90 s bound), exit 0, and the snapshot the program takes right after Run returns must contain every predicted output and no temp dir / FIFO; every started command has ended; non-trivial = at least one task"
     rep.cov["samples"] = [results[0]["spec"], results[2]["spec"]]
     rep.notes["input_distribution"] = {"runs": len(results), "tasks_executed_total": sum(r["ntasks"] for r in results), "max_wall_s": round(max(r["wall"] for r in results), 2)}
     rep.assump += ["a started command eventually exits (H-term)", "SCIPIPE_BUFSIZE >= 1", "theorems: merge-free balanced graphs; other shapes by correspondence"]
